@@ -258,9 +258,10 @@ impl GraphEngine {
             return Ok(id);
         }
 
-        // It's a new label.
-        // We update memory first to get the authoritative ID.
-        let returned_id = interner.get_or_create(name);
+        // It's a new label.  The id it will get is the next free one (we hold the interner
+        // lock); the interner itself is only updated once the label is durable in the WAL, so
+        // that a failed append / fsync does not leave an id in memory that was never logged.
+        let returned_id = interner.next_id();
 
         // Durability: Log to WAL (post-facto, but before return)
         // We wrap this in a mini-transaction to ensure replayability.
@@ -279,6 +280,9 @@ impl GraphEngine {
             wal.fsync()?;
             wal.commit();
         }
+
+        let assigned = interner.get_or_create(name);
+        debug_assert_eq!(assigned, returned_id);
 
         // Update Published Snapshot
         let snapshot = interner.snapshot();
